@@ -93,10 +93,15 @@ def executionAllowedHookDenied (s : TokState) : TokState × Out := argsToIPLD s
     hook's own copy; whatever the validator does with it does not reach the token -/
 def executionAllowedHookClone (s : TokState) : TokState × Out := argsToIPLD s
 
+/-- `ExecutionAllowed` (no hook) refused BY THE POLICY of a delegation of its chain: the refusal — and whatever text it
+    carries about the statement and the arguments — is computed from copies; the token's own arguments stay what they were -/
+def executionAllowedDenied (s : TokState) : TokState × Out := argsToIPLD s
+
 /-- the read-only operations of the stream -/
 inductive ROp where
   | argsToIPLD | argsString | metaString | argsIter | metaIter | executionAllowed | seal
   | executionAllowedHook | executionAllowedMissing | executionAllowedHookDenied | executionAllowedHookClone
+  | executionAllowedDenied
   deriving DecidableEq, Repr
 
 def runOp : ROp → TokState → TokState × Out
@@ -111,6 +116,7 @@ def runOp : ROp → TokState → TokState × Out
   | .executionAllowedMissing => Immut.executionAllowedMissing
   | .executionAllowedHookDenied => Immut.executionAllowedHookDenied
   | .executionAllowedHookClone => Immut.executionAllowedHookClone
+  | .executionAllowedDenied => Immut.executionAllowedDenied
 
 /-! ### threads and schedules -/
 
